@@ -282,6 +282,10 @@ func (r *reifier) collect(term string, t types.Type, depth int, out *[]string) {
 		*out = append(*out, term)
 	case *types.Pointer:
 		*out = append(*out, term)
+		if typeKey(ut.Elem()) == "xtype.Type" {
+			r.collectXType(term, depth, out)
+			return
+		}
 		st, ok := types.Unalias(ut.Elem()).Underlying().(*types.Struct)
 		if !ok {
 			return
@@ -375,6 +379,23 @@ func (r *reifier) build(term string, t types.Type, depth int) string {
 		}
 		key := fmt.Sprintf("%s@%d", typeKey(ut.Elem()), ref)
 		if name, ok := r.objs[key]; ok {
+			return name
+		}
+		if typeKey(ut.Elem()) == "xtype.Type" {
+			name := r.fresh("ty")
+			r.objs[key] = name
+			expr, ok := r.buildGoType(term, depth)
+			if !ok {
+				r.incomplete("xtype.Type without a reifiable shape")
+			}
+			fn := "TypeOf"
+			if r.pkg.Path() != "github.com/jmattheis/goverter/xtype" {
+				r.imports["github.com/jmattheis/goverter/xtype"] = "xtype"
+				fn = "xtype.TypeOf"
+			}
+			r.imports["go/types"] = "types"
+			r.stmts = append(r.stmts, fmt.Sprintf("%s := %s(%s)", name, fn, expr))
+			r.notes = append(r.notes, "*xtype.Type "+name+" rebuilt from its shape flags with a real go/types type (String/T are those of the rebuilt type, not of the model)")
 			return name
 		}
 		if n, ok := types.Unalias(ut.Elem()).(*types.Named); ok && n.Obj().Pkg() != nil && !strings.HasPrefix(n.Obj().Pkg().Path(), "github.com/jmattheis/goverter") {
@@ -1018,4 +1039,125 @@ func TestVerifReplay(t *testing.T) {
 func hasTypeParams(f *types.Func) bool {
 	sig := f.Type().(*types.Signature)
 	return sig.RecvTypeParams().Len() > 0 || sig.TypeParams().Len() > 0
+}
+
+// ---------------------------------------------------------------------------
+// *xtype.Type: rebuilt from the shape flags of the model as a real go/types type
+
+var xtypeFlags = []string{"Pointer", "Basic", "Map", "List", "ListFixed", "Struct", "Named", "Interface", "Signature", "Chan"}
+var xtypeInner = []string{"PointerInner", "ListInner", "MapKey", "MapValue"}
+
+func (r *reifier) xtHeap(field string) (string, bool) {
+	h := "H_" + sanitize("F:xtype.Type."+field) + "_0"
+	_, ok := r.reg.funDecls[h]
+	return h, ok
+}
+
+func (r *reifier) basicKindFn() string {
+	for n := range r.reg.funDecls {
+		if strings.HasPrefix(n, "ext_go_types.Basic.Kind_0") {
+			return n
+		}
+	}
+	return ""
+}
+
+func (r *reifier) collectXType(term string, depth int, out *[]string) {
+	if depth > 3 {
+		return
+	}
+	for _, f := range xtypeFlags {
+		if h, ok := r.xtHeap(f); ok {
+			*out = append(*out, "(select "+h+" "+term+")")
+		}
+	}
+	if h, ok := r.xtHeap("BasicType"); ok {
+		if fn := r.basicKindFn(); fn != "" {
+			*out = append(*out, "("+fn+" (select "+h+" "+term+"))")
+		}
+	}
+	for _, f := range xtypeInner {
+		if h, ok := r.xtHeap(f); ok {
+			inner := "(select " + h + " " + term + ")"
+			*out = append(*out, inner)
+			r.collectXType(inner, depth+1, out)
+		}
+	}
+}
+
+func (r *reifier) xtFlag(term, field string) bool {
+	h, ok := r.xtHeap(field)
+	if !ok {
+		return false
+	}
+	v := r.val("(select " + h + " " + term + ")")
+	return v != nil && v.atom == "true"
+}
+
+// buildGoType returns a Go expression of type types.Type for the shape of the *xtype.Type at term
+func (r *reifier) buildGoType(term string, depth int) (string, bool) {
+	r.imports["go/types"] = "types"
+	if depth > 3 {
+		return "types.Typ[types.Int]", false
+	}
+	inner := func(field string) (string, bool) {
+		h, ok := r.xtHeap(field)
+		if !ok {
+			return "types.Typ[types.Int]", true
+		}
+		t := "(select " + h + " " + term + ")"
+		if v := r.val(t); v != nil {
+			if ref, ok := smtInt(v); ok && ref == 0 {
+				return "types.Typ[types.Int]", false
+			}
+		}
+		return r.buildGoType(t, depth+1)
+	}
+	var expr string
+	ok := true
+	switch {
+	case r.xtFlag(term, "Pointer"):
+		e, o := inner("PointerInner")
+		expr, ok = "types.NewPointer("+e+")", o
+	case r.xtFlag(term, "Basic"):
+		kind := int64(2) // types.Int
+		if h, okh := r.xtHeap("BasicType"); okh {
+			if fn := r.basicKindFn(); fn != "" {
+				if v := r.val("(" + fn + " (select " + h + " " + term + "))"); v != nil {
+					if k, okk := smtInt(v); okk && k >= 1 && k <= 17 {
+						kind = k
+					}
+				}
+			}
+		}
+		expr = fmt.Sprintf("types.Typ[types.BasicKind(%d)]", kind)
+	case r.xtFlag(term, "Map"):
+		k, o1 := inner("MapKey")
+		e, o2 := inner("MapValue")
+		expr, ok = "types.NewMap("+k+", "+e+")", o1 && o2
+	case r.xtFlag(term, "List"):
+		e, o := inner("ListInner")
+		if r.xtFlag(term, "ListFixed") {
+			expr = "types.NewArray(" + e + ", 2)"
+		} else {
+			expr = "types.NewSlice(" + e + ")"
+		}
+		ok = o
+	case r.xtFlag(term, "Struct"):
+		expr = "types.NewStruct(nil, nil)"
+	case r.xtFlag(term, "Interface"):
+		expr = "types.NewInterfaceType(nil, nil)"
+	case r.xtFlag(term, "Signature"):
+		expr = "types.NewSignatureType(nil, nil, nil, nil, nil, false)"
+	case r.xtFlag(term, "Chan"):
+		expr = "types.NewChan(types.SendRecv, types.Typ[types.Int])"
+	default:
+		return "types.Typ[types.Int]", false
+	}
+	if r.xtFlag(term, "Named") {
+		r.imports["go/token"] = "token"
+		r.nvar++
+		expr = fmt.Sprintf("types.NewNamed(types.NewTypeName(token.NoPos, types.NewPackage(\"example.org/replay\", \"replay\"), \"N%d\", nil), %s, nil)", r.nvar, expr)
+	}
+	return expr, ok
 }
